@@ -21,7 +21,13 @@ RULE = ("strings one or two edits away from valid input: a set of valid forms (t
         "two backends agree whenever both accept.")
 EXHAUSTIVE = {"quick": False, "thorough": False}
 TRUSTED = ["the C07 and C13 parser models (Model/IsoParse.v, Model/DurParse.v, generated regex ASTs) are reused unchanged; Model/ParseTotal.v adds the "
-           "fallback chain, the interval assembly, _normalize and parser._parse by hand (statement by statement), tied by correspondence",
+           "fallback chain, the interval assembly, _normalize and parser._parse; these are no longer only hand-written: Gen/ParseChain.v is TRANSLATED "
+           "from parsing/__init__.py (parse, _parse with its suppress / try-except ladder, _normalize, _parse_common after COMMON.match, "
+           "_parse_iso8601_interval) and parser.py (_parse) on every run (tools/vlib/gens/g84_parse_chain.py; try/except = a match on the exception "
+           "kind of the result monad, class hierarchy read from parsing/exceptions) and proved equal to the model (Props/C17.v model_is_code_*); "
+           "hand primitives: Model/ParseChainObj.v (native constructors, isinstance predicates, the _Interval record, pendulum.instance / "
+           "DateTime.add / pendulum.interval on fixed-offset values, group truthiness and int() of COMMON's \\d groups); side conditions of the "
+           "equalities: parse_iso8601 / dateutil return objects of the native classes (fields in range), options['now'] is a datetime",
            "CPython: str -> &str conversion (lone surrogates raise UnicodeEncodeError), Unicode decimal digits (Gen/UnicodeNd.v is generated from the "
            "staged interpreter's str.isdecimal/unicodedata.decimal), int()'s 4300-digit limit, datetime/timedelta range checks (Spec/NativeDT.v)",
            "dateutil.parser.parse is an opaque oracle ARGUMENT of the model (a Section variable); theorems that need it assume only that it returns a "
@@ -783,7 +789,8 @@ LEVEL_TEXT = ("Machine-checked Coq theorems about an executable model of the who
               "offsets of 24 h and more rejected (compiled recogniser: every text; both backends and the dateutil hand-over: witnesses), strict=True "
               "never reaches dateutil; the former escapes (TypeError, AttributeError, OverflowError) are rejection theorems on their witnesses; "
               "refutations by witness for the remaining findings (u32 wrap, backend differences); differential correspondence on ~3*10^5 edited "
-              "strings per run and four independent oracles.")
+              "strings per run and four independent oracles.  The chain itself (parsing.parse/_parse/_normalize/_parse_common/_parse_iso8601_interval, "
+              "parser._parse) is translated from /repo on every run and proved equal to the model (model_is_code_*).")
 DESIGN_REF = "DESIGN.md section 4 C17"
 LEVEL_NOTE = ("Trusted: Coq kernel+VM, the reused C07/C13 models and the hand-written glue (tied by correspondence every run), extraction+driver, the "
               "stdlib recognisers of the harness. dateutil is an oracle argument: nothing is assumed about it beyond the stated hypothesis.")
